@@ -258,6 +258,24 @@ impl<T> RcInner<T> {
     }
 }
 
+#[cfg(feature = "circ_verif")]
+pub(crate) fn verif_state_addr<T>(word: usize) -> usize {
+    let ptr = (word & Raw::<T>::verif_addr_mask()) as *const RcInner<T>;
+    if ptr.is_null() {
+        0
+    } else {
+        unsafe { core::ptr::addr_of!((*ptr).state) as usize }
+    }
+}
+
+#[cfg(feature = "circ_verif")]
+pub(crate) fn verif_block_layout<T>() -> (usize, usize) {
+    (
+        core::mem::size_of::<RcInner<T>>(),
+        core::mem::align_of::<RcInner<T>>(),
+    )
+}
+
 impl<T: RcObject> RcInner<T> {
     #[inline]
     pub(crate) unsafe fn decrement_strong(ptr: *mut Self, count: u32, guard: Option<&Guard>) {
